@@ -276,8 +276,24 @@ impl Ctx<'_> {
         }
     }
     fn bindings(&self, q: &Query) -> Vec<Binding> {
-        let mut cur: Vec<Binding> = vec![Binding::new()];
-        for p in &q.paths {
+        let main = self.match_paths(vec![Binding::new()], &q.paths);
+        if q.optional.is_empty() {
+            return main;
+        }
+        let mut out = vec![];
+        for b in main {
+            let ext = self.match_paths(vec![b.clone()], &q.optional);
+            if ext.is_empty() {
+                out.push(b); // the optional variables stay unbound (NULL)
+            } else {
+                out.extend(ext);
+            }
+        }
+        out
+    }
+    fn match_paths(&self, start: Vec<Binding>, paths: &[PathPat]) -> Vec<Binding> {
+        let mut cur = start;
+        for p in paths {
             let mut next = vec![];
             for b in cur {
                 for i in 0..self.g.nodes.len() {
